@@ -622,6 +622,9 @@ type c08FrameValue struct {
 	f Frame
 	// valid: inside the domain on which decode(encode(x)) == x is demanded.
 	valid bool
+	// light: mutations of the encoding are parsed at 1-RTT only (except the type byte), also
+	// in the thorough tier (used for the 3-range ACK frames, the bulk of the lattice)
+	light bool
 	// reject: the value is outside a range the statement lists, every parser configuration
 	// has to reject its encoding (reason names the rule).
 	reject string
